@@ -5,7 +5,9 @@ import (
 	"fmt"
 	"strings"
 
-	"verif/harness/internal/core"
+	"gonum.org/v1/gonum/internal/verifhook"
+
+	"gonum.org/v1/gonum/verifharness/internal/core"
 )
 
 // inst is one instance printed by specs/lapack/Planted.tla (fields used depend on Fam).
@@ -53,6 +55,9 @@ type inst struct {
 	Side    string `json:"side"`
 }
 
+// forcedNB > 0 when the Ilaenv override is installed (used only for counting).
+var forcedNB int
+
 var families = map[string]func(in *inst, raw json.RawMessage, full bool, sum *core.Summary){}
 
 func init() {
@@ -61,10 +66,35 @@ func init() {
 
 func replay(in *core.Lines, args []string, seed int64, sum *core.Summary) error {
 	full := false
+	nb, nx := 0, -1
 	for _, a := range args {
 		if a == "variants=full" {
 			full = true
 		}
+		fmt.Sscanf(a, "nb=%d", &nb)
+		fmt.Sscanf(a, "nx=%d", &nx)
+	}
+	if nb > 0 {
+		// Force the block size (ispec 1) and the crossover point (ispec 3) of every blocked
+		// LAPACK routine through the verif-tagged hook in lapack/gonum.Ilaenv; the minimum block
+		// size (ispec 2) and everything else keep their defaults.  Which path runs is never a
+		// verdict: results are compared with the same specification values as before.
+		verifhook.SetIlaenv(func(ispec int, name, opts string, n1, n2, n3, n4 int) (int, bool) {
+			if ispec == 1 || ispec == 3 {
+				sum.Count("ilaenv_override_hits", 1)
+			}
+			switch {
+			case ispec == 1:
+				return nb, true
+			case ispec == 3 && nx >= 0:
+				return nx, true
+			}
+			return 0, false
+		})
+		defer verifhook.SetIlaenv(nil)
+		forcedNB = nb
+		sum.Extra["forced_nb"] = nb
+		sum.Extra["forced_nx"] = nx
 	}
 	for {
 		line, ok := in.Next()
